@@ -257,7 +257,7 @@ def main(tier, replay=None):
             run_case(dict(source={"kind": "shipped", "name": name}, modes={"fully_obs": fully},
                           ops=[("p", i, "lo", i) for i in range(12)]), rep)
     nshards = 16 if tier == "thorough" else 8
-    total = 16 * 600 if tier == "thorough" else 640
+    total = 16 * 3000 if tier == "thorough" else 640
     for p in engine.run_shards(_shard, nshards, common.verif_seed(), tier=tier, n_cases=total // nshards):
         rep.merge(p)
     runner = _Runner(Reporter(PID, tier, RULE))
